@@ -198,6 +198,25 @@ func loadProg(root string) (*Prog, error) {
 				}
 				p.Funcs[obj] = fi
 				p.ByName[fi.Name()] = fi
+				// function-literal units: contracts keyed Func["entry"]
+				if fd.Body != nil {
+					for _, k := range sortedKeys(byKey) {
+						if !strings.HasPrefix(k, fi.Key+"[\"") || !strings.HasSuffix(k, "\"]") {
+							continue
+						}
+						name := k[len(fi.Key)+2 : len(k)-2]
+						lit := keyedFuncLit(fd.Body, name)
+						if lit == nil {
+							p.Problems = append(p.Problems, fmt.Sprintf("contract-target-missing: function literal %s", k))
+							continue
+						}
+						lfi := &FuncInfo{Lit: lit, Decl: fd, Pkg: pkg, Key: k, Contract: byKey[k], Flags: map[string]string{}, Loops: map[ast.Stmt]*LoopInfo{}, markers: map[ast.Stmt]bool{}}
+						byKey[k].Used = true
+						p.extractMarkers(lfi)
+						litInfos[lit] = lfi
+						p.ByName[lfi.Name()] = lfi
+					}
+				}
 			}
 		}
 		scope := pkg.Types.Scope()
@@ -251,7 +270,7 @@ func (p *Prog) exprText(e ast.Expr) string {
 func (p *Prog) extractMarkers(fi *FuncInfo) {
 	info := fi.Pkg.TypesInfo
 	body := fi.Body()
-	sig := fi.Obj.Type().(*types.Signature)
+	sig := fi.sig()
 	named := sig.Results().Len() > 0 && sig.Results().At(0).Name() != ""
 	if named {
 		for i := 0; i < sig.Results().Len(); i++ {
